@@ -56,7 +56,7 @@ _E2E_NOTE = "Trusted: the in-memory rig (net.Pipe listener with TCP-like address
 
 CHECKS["C05"] = {
     "level": "exploration",
-    "technique": "property-based testing (rapid): generated injector sets (default three + custom injectors yielding value/empty/error) x client requests carrying attacker values under injected names in drawn letter case, once or repeated, over HTTP/1.1, HTTP/2 (incl. CONTINUATION) and no-ALPN connections, with parsable and unparsable hellos; oracle on the header values recorded by the backend; plus a burst check (several clients' first requests reach a fresh proxy at the same moment) and the binary's default wiring (overlay)",
+    "technique": "property-based testing (rapid): generated injector sets (default three + custom injectors yielding value/empty/error) x client requests carrying attacker values under injected names in drawn letter case, once or repeated, over HTTP/1.1, HTTP/2 (incl. CONTINUATION) and no-ALPN connections, with parsable and unparsable hellos; oracle on the header values recorded by the backend; plus a burst check (several clients' first requests reach a fresh proxy at the same moment) and the binary's default wiring (overlay); client values in the request's trailer section, custom injectors that panic (also ahead of the default three), two-record hellos cut at drawn offsets",
     "rule": "case = connection (protocol, parsable/2-record hello, injector set with outcomes) + 1..3 requests with 0..12 spoofed field lines (configured names in 4 case variants, near-miss names). Non-trivial = a client value is present under a configured name whose injector yields nothing (empty or error) for that request; distinct by hash of the script.",
     "level_text": "Generated-input search with a validity oracle at the backend (values under a configured name are a subset of {proxy-computed value}, at most one, never a client value; near-miss names pass through). Absence of counterexamples in ~2.5k (quick) / 60k (thorough) connections.",
     "level_note": _E2E_NOTE,
@@ -128,7 +128,7 @@ CHECKS["C11"] = {
 
 CHECKS["C17"] = {
     "level": "exploration",
-    "technique": "property-based testing (rapid under testing/synctest fake time): generated workloads at the instant of cancellation (connections stalled mid-handshake, silent, idle keep-alive HTTP/1.1, handshake done but no request, HTTP/1.1 exchange in flight in a slow handler, idle and busy HTTP/2) x trigger (cancel, cancel twice, cancelled before Serve, net/http server stopping on its own) x connection attempts at drawn times after the cancel; oracle on Serve's return value and fake-time latency, listener state, backend log; plus generated SIGINT/SIGTERM sequences against Run() itself in a child process (real sockets, real time, generous bounds)",
+    "technique": "property-based testing (rapid under testing/synctest fake time): generated workloads at the instant of cancellation (connections stalled mid-handshake, silent, idle keep-alive HTTP/1.1, handshake done but no request, HTTP/1.1 exchange in flight in a slow handler, idle and busy HTTP/2) x trigger (cancel, cancel twice, cancelled before Serve, net/http server stopping on its own) x connection attempts at drawn times after the cancel; oracle on Serve's return value and fake-time latency, listener state, backend log; plus generated SIGINT/SIGTERM sequences against Run() itself in a child process (real sockets, real time, generous bounds); one server serving two listeners through two Serve calls",
     "rule": "case = workload + trigger + in-flight duration + post-cancel attempt times. Non-trivial = at least one HTTP/1.1 exchange in flight or one connection mid-handshake at the cancel; distinct by hash of the script.",
     "level_text": "Generated schedules with barriers: Serve returns http.ErrServerClosed, not before a genuinely in-flight HTTP/1.1 exchange ends and within 2 s after it (10 s when there is none), listener closed, no post-cancel attempt served, idle/new/mid-handshake HTTP/1.1 connections closed.",
     "level_note": _E2E_NOTE + " Schedule points are those reachable by quiescence barriers and fake-time sleeps, not arbitrary instruction interleavings; the pause-point variant (cancel between handshake and hand-over) lives in C11's c11.pause-cancel.",
@@ -140,7 +140,7 @@ CHECKS["C17"] = {
 
 CHECKS["C10"] = {
     "level": "fault_enumeration",
-    "technique": "fault injection + fuzz-style generation (rapid under testing/synctest): random and structured garbage before TLS, valid h2/http/1.1 transcripts mutated above TLS (after a real handshake) and at the TLS byte level, client disconnect or stall after drawn byte offsets, an error injected at the k-th Read/Write/Set*Deadline/Close of the accepted connection, a panic injected at each user callback (GetCertificate, GetConfigForClient, VerifyConnection, ConnState, header injector, handler); finite sub-spaces are enumerated; oracle = process alive, bystander connections and fresh control connections served, victim connection closed",
+    "technique": "fault injection + fuzz-style generation (rapid under testing/synctest): random and structured garbage before TLS, valid h2/http/1.1 transcripts mutated above TLS (after a real handshake) and at the TLS byte level, client disconnect or stall after drawn byte offsets, an error injected at the k-th Read/Write/Set*Deadline/Close of the accepted connection, a panic injected at each user callback (GetCertificate, GetConfigForClient, VerifyConnection, ConnState, header injector, handler); finite sub-spaces are enumerated; oracle = process alive, bystander connections and fresh control connections served, victim connection closed; plus a crowd check: 2-12 well-behaved connections at once with never-seen header names, a fatal runtime error of the test binary counting as the violation",
     "rule": "case = one victim connection (kind, protocol, mutation list / offset / fault point / panic site) run next to an HTTP/1.1 and an HTTP/2 bystander. Non-trivial = the victim got past the TLS handshake, or the case is an I/O-fault or panic injection; distinct by hash of the script.",
     "level_text": "Enumeration of all panic sites x protocols, all (operation, index<=14) I/O fault points and (thorough tier) every disconnect offset of the three reference sessions, plus generated byte-level mutations. A process death is reported as a violation with the script that was running.",
     "level_note": _E2E_NOTE + " Crash-freedom is shown for executed inputs only; memory/CPU exhaustion is not judged.",
@@ -174,7 +174,7 @@ CHECKS["C18"] = {
 
 CHECKS["C19"] = {
     "level": "exploration",
-    "technique": "property-based testing (rapid) + native go fuzzing of http2.Framer: (1) generated sequences of Write* calls over boundary parameters -> bytes compared with an independent RFC 7540 serialiser and read back through ReadFrame against an independent parser; (2) byte streams from a frame grammar with injected defects, raw bytes, truncation and drawn read limits -> accept/reject, parsed fields and error codes compared with the reference; (3) header blocks cut into HEADERS+CONTINUATION chains read back with ReadMetaHeaders; (4) illegal Write* parameters are refused without AllowIllegalWrites; plus header-block sequences through one ReadMetaHeaders decoder and arbitrary frame streams through a ReadMetaHeaders framer",
+    "technique": "property-based testing (rapid) + native go fuzzing of http2.Framer: (1) generated sequences of Write* calls over boundary parameters -> bytes compared with an independent RFC 7540 serialiser and read back through ReadFrame against an independent parser; (2) byte streams from a frame grammar with injected defects, raw bytes, truncation and drawn read limits -> accept/reject, parsed fields and error codes compared with the reference; (3) header blocks cut into HEADERS+CONTINUATION chains read back with ReadMetaHeaders; (4) illegal Write* parameters are refused without AllowIllegalWrites; plus header-block sequences through one ReadMetaHeaders decoder and arbitrary frame streams through a ReadMetaHeaders framer (error-type oracle: io/ErrFrameTooLarge/ConnectionError/StreamError only; small MaxHeaderListSize; text in place of a frame header)",
     "rule": "read: case = 1..5 frames (all ten types and unknown types; wrong fixed lengths, stream 0 where forbidden and vice versa, pad >= length, zero increments, reserved bit set, HEADERS/CONTINUATION chains incl. wrong stream, frames above the limit, truncation) + read limit; non-trivial = contains a malformed frame or one above the limit. write: case = 1..8 Write* calls; non-trivial = a padded or priority-carrying frame or a CONTINUATION chain. Distinct by hash of the bytes/script.",
     "level_text": "Generated-input search against an independent frame codec (harness/ref/frameref): no panic, never a frame above the read limit, every malformed frame rejected with a ConnectionError/StreamError whose code is in the set RFC 7540 assigns (escalation to a connection error admitted), every legal frame accepted with identical fields, written bytes identical to the RFC serialisation.",
     "level_note": "Trusted: harness/ref/frameref (about 300 lines). PUSH_PROMISE chains (PUSH_PROMISE without END_HEADERS followed by CONTINUATION) are generated but not judged: the reader tracks HEADERS chains only, and the statement speaks of HEADERS/CONTINUATION interleavings.",
@@ -219,7 +219,7 @@ CHECKS["C07"] = {
 
 CHECKS["C14"] = {
     "level": "exploration",
-    "technique": "model-based property testing (rapid) against the real filesystem and inotify in real time: generated histories of update steps on the watched certificate/key paths (in-place truncate / half / full / garbage writes, atomic rename-over with good and bad content, Kubernetes-style symlinked-directory swaps with good and mismatching pairs, a removed-and-recreated file as its own class), each ending with a settle suffix that installs a fresh valid pair in one of the supported styles, while a background client performs TLS handshakes throughout; many rotations under handshake load with bounded waits",
+    "technique": "model-based property testing (rapid) against the real filesystem and inotify in real time: generated histories of update steps on the watched certificate/key paths (in-place truncate / half / full / garbage writes, atomic rename-over with good and bad content, Kubernetes-style symlinked-directory swaps with good and mismatching pairs, a removed-and-recreated file as its own class), each ending with a settle suffix that installs a fresh valid pair in one of the supported styles, while a background client performs TLS handshakes throughout; many rotations under handshake load with bounded waits; idle cases with nobody connecting and the garbage collector switched off",
     "rule": "case = layout (flat / k8s) + 0..10 steps + settle style. Non-trivial = the history contains a broken intermediate state and uses at least two update styles; distinct by hash of the script.",
     "level_text": "Generated histories with two oracles: safety (every handshake during and after the history succeeds and presents a pair whose certificate and key have both been completely on disk) and convergence (within 3 s of real time after the settle suffix, re-checked once after 2 more seconds, new handshakes present the settled pair).",
     "level_note": "Trusted: this kernel's inotify semantics on this filesystem (tmpfs/overlay under $TMPDIR), fsnotify v1.7.0, wall-clock bound of 3 s + 2 s (events arrive within milliseconds here). The safety set is the superset 'certificate k and key k have each been fully written at some time', which never raises a false alarm.",
@@ -231,7 +231,7 @@ CHECKS["C14"] = {
 
 CHECKS["C12"] = {
     "level": "exploration",
-    "technique": "model-based property testing (rapid under testing/synctest) with a peer-side window ledger: a raw HTTP/2 peer (x/net v0.19.0 framer) drives the fork's http2.Server.ServeConn (downloads of 0..1 MiB in drawn chunks on up to 8 streams, uploads with padded/unpadded DATA against handlers that read all / some / nothing / close early, WINDOW_UPDATE on streams and connection incl. overflow attempts, SETTINGS_INITIAL_WINDOW_SIZE from 0 to 2^31-1 incl. changes that drive open windows negative, SETTINGS_MAX_FRAME_SIZE, RST_STREAM mid-body) and, mirrored, the fork's Transport.NewClientConn (uploads, responses read fully / partly / cancelled); every step ends at quiescence and every DATA / WINDOW_UPDATE / RST_STREAM / GOAWAY frame is judged against the ledger; the server ledger also runs built with a serve-loop yield mapped in by go build -overlay (select order among simultaneously pending events is drawn), with clients that stop reading, stream errors on uploads and graceful GOAWAY",
+    "technique": "model-based property testing (rapid under testing/synctest) with a peer-side window ledger: a raw HTTP/2 peer (x/net v0.19.0 framer) drives the fork's http2.Server.ServeConn (downloads of 0..1 MiB in drawn chunks on up to 8 streams, uploads with padded/unpadded DATA against handlers that read all / some / nothing / close early, WINDOW_UPDATE on streams and connection incl. overflow attempts, SETTINGS_INITIAL_WINDOW_SIZE from 0 to 2^31-1 incl. changes that drive open windows negative, SETTINGS_MAX_FRAME_SIZE, RST_STREAM mid-body) and, mirrored, the fork's Transport.NewClientConn (uploads, responses read fully / partly / cancelled); every step ends at quiescence and every DATA / WINDOW_UPDATE / RST_STREAM / GOAWAY frame is judged against the ledger; the server ledger also runs built with a serve-loop yield mapped in by go build -overlay (select order among simultaneously pending events is drawn), with clients that stop reading, stream errors on uploads and graceful GOAWAY; uploads cancelled by the client right behind their data",
     "rule": "case = operation history on one connection. Non-trivial = a window reaches <= 0 with data still queued (and later reopens), or a stream is reset mid-body, or INITIAL_WINDOW_SIZE changes with streams open; distinct by hash of the history.",
     "level_text": "Generated histories with an exact ledger: DATA never above stream window, connection window or the max frame size in force (settings switch at the SETTINGS ACK); at quiescence nothing deliverable is left undelivered; bodies arrive complete and unaltered once windows open; a window pushed above 2^31-1 or DATA beyond the advertised window draws a FLOW_CONTROL_ERROR; un-returned connection credit never exceeds unread bytes held by live handlers + 4096.",
     "level_note": "Trusted: the ledger in harness/c12 (RFC 9113 section 5.2/6.9), x/net v0.19.0 framer as the peer's codec, testing/synctest quiescence. The harness owns the schedule: steps are separated by quiescence, so interleavings of whole steps are explored, not instruction-level races.",
@@ -243,7 +243,7 @@ CHECKS["C12"] = {
 
 CHECKS["C13"] = {
     "level": "exploration",
-    "technique": "model-based property testing (rapid under testing/synctest): a generated client frame script (HEADERS on new / skipped / lower / even / zero / open / half-closed / closed streams, well-formed and eleven kinds of malformed header blocks, CONTINUATION chains incl. interrupted and stray ones, DATA incl. padded / padding-only / bad padding on every stream state, RST_STREAM, WINDOW_UPDATE, PRIORITY incl. self-dependency and bad length, SETTINGS valid and invalid, PING, PUSH_PROMISE, GOAWAY, unknown types, handler release) is played by a raw peer against the fork's http2.Server.ServeConn with MaxConcurrentStreams 1..3 and finish / hang / read-body handlers; after every frame (quiescence) the server's frames and the handler log are compared with the set of reactions a reference model of RFC 9113 section 5.1 admits; the model also runs with the serve-loop yield, and a slot-reuse check opens the next request at the advertised concurrency limit without waiting for quiescence",
+    "technique": "model-based property testing (rapid under testing/synctest): a generated client frame script (HEADERS on new / skipped / lower / even / zero / open / half-closed / closed streams, well-formed and eleven kinds of malformed header blocks, CONTINUATION chains incl. interrupted and stray ones, DATA incl. padded / padding-only / bad padding on every stream state, RST_STREAM, WINDOW_UPDATE, PRIORITY incl. self-dependency and bad length, SETTINGS valid and invalid, PING, PUSH_PROMISE, GOAWAY, unknown types, handler release) is played by a raw peer against the fork's http2.Server.ServeConn with MaxConcurrentStreams 1..3 and finish / hang / read-body handlers; after every frame (quiescence) the server's frames and the handler log are compared with the set of reactions a reference model of RFC 9113 section 5.1 admits; the model also runs with the serve-loop yield, and a slot-reuse check opens the next request at the advertised concurrency limit without waiting for quiescence; the connection context carries fingerprint metadata (capture code runs; a wedge watch reports a lock never released); client encoder table-size changes after malformed blocks",
     "rule": "case = advertised limit + 1..28 client frames (at most one connection-level protocol violation, as the last frame). Non-trivial = the script contains an illegal frame and a handled request, or reaches the concurrency limit, or uses CONTINUATION; distinct by hash of the script.",
     "level_text": "Generated histories against a reference model: a handler starts only for a complete, well-formed header block on a new, odd, strictly increasing stream id within the advertised limit, and exactly once; legal frames draw no RST_STREAM/GOAWAY; illegal frames draw an error from the admissible set (escalation to a connection error admitted, hardening reactions admitted as 'any connection error'); GOAWAY's last-stream-id covers every handled request; after an error GOAWAY no handler starts and the connection closes within 2 s of fake time; PING and SETTINGS are acknowledged.",
     "level_note": "Trusted: the model in harness/c13 (admissible sets per (state, frame), DESIGN Appendix A, corrected in section 6 where it proved stricter than the RFC). Where the RFC leaves the reaction open (frames on a stream the server itself reset, connection-specific header fields) the whole set is admitted.",
